@@ -243,7 +243,7 @@ def _c17_cov(rs):
 
 CHECKS["C17"] = dict(
     level="model_checking",
-    rule="Stateless exploration of thread schedules with iterated preemption bound (CHESS style) over 18 scenarios of 2-3 real threads forced to collide on lazily "
+    rule="Stateless exploration of thread schedules with iterated preemption bound (CHESS style) over 20 scenarios of 2-3 real threads forced to collide on lazily "
          "initialised or shared library state (first use of regex categories; parsers sharing one locked grammar pool validating the same type / DTD element for the "
          "first time, and - with PSVI handlers and a walk over the pool's XSModel - against identity constraints, substitution groups, union / list types and xsi:type; named transcoders; private schema builds; case-insensitive and complement-of-block regex atoms; owner-less DOMDocumentType; DOMImplementationRegistry; local-code-page transcoding; parser construction and progressive scan tokens; message "
          "loading; private DOM build/serialise). Scheduling points: thread start/end and before-lock / inside-critical-section / after-unlock of every library mutex "
